@@ -1088,6 +1088,41 @@ def _(e):
     return "gcp_opt", ttb.gcp_opt, (X, 2, Objectives.GAUSSIAN, Adam(max_iters=2, epoch_iters=2)), {"init": init, "printitn": 0}
 
 
+def _gcp_parts(e):
+    from pyttb.gcp.fg_setup import Objectives, setup
+
+    fh, gh, _lb = setup(Objectives.GAUSSIAN)
+    K = e.ktensor(R=2)
+    X = e.tensor()
+    return fh, gh, K, X
+
+
+@entry("gcp.fg.evaluate", (2, 3))
+def _(e):
+    from pyttb.gcp.fg import evaluate
+
+    fh, gh, K, X = _gcp_parts(e)
+    W = ttb.tensor((e.rng.random(e.shape) < 0.7).astype(float)) if e.rng.random() < 0.5 else None
+    return "gcp.fg.evaluate", evaluate, (K, X, W, fh, gh), {}
+
+
+@entry("gcp.fg_est.estimate(weights checked)", (2, 3))
+def _(e):
+    from pyttb.gcp.fg_est import estimate
+
+    fh, gh, K, X = _gcp_parts(e)
+    subs = np.array(list(np.ndindex(*e.shape)))
+    subs = subs[e.rng.permutation(subs.shape[0])[: max(2, subs.shape[0] // 2)]]
+    vals = X.data[tuple(subs.T)].copy()
+    import warnings
+
+    def run(*a):
+        with warnings.catch_warnings():
+            warnings.simplefilter("ignore")
+            return estimate(*a)
+    return "gcp.fg_est.estimate", run, (K, subs, vals, np.ones(subs.shape[0]), fh, gh), {}
+
+
 @entry("hosvd(ranks array with automatic entries)", (2, 3))
 def _(e):
     e.shape = tuple(max(3, s) for s in e.shape)
